@@ -86,7 +86,7 @@ class C09(Prop):
         "RxModel.GenTie.Throttle": ["throttle"],
         "RxModel.GenTie.WiringDebounce": ["debounce"],
         "RxModel.GenTie.WiringThrottle": ["throttle"],
-        "RxModel.GenTie.TimeOpsModel": ["debounce"],        # forward simulation: generated debounce observer vs Stage.onNotif
+        "RxModel.GenTie.TimeOpsModel": ["debounce", "throttle"],   # forward simulations: generated debounce / throttle observers vs Stage.onNotif (+ afterEmit)
         "RxModel.GenTie.BufferCell": ["buftime", "bufcounttime"],
         "RxModel.GenTie.WiringBuffer": ["buftime", "bufcounttime"],
     }
